@@ -101,7 +101,10 @@ func c08CheckMsg(w *core.W, m *model.Msg, kind string, exact bool) {
 		bu, _ := buildMsgAny(m)
 		bu.Compress = false
 		ul := bu.Len()
-		for _, extra := range []int{1, 2, 700} {
+		for _, extra := range []int{-ul, -1, 0, 1, 2, 700} {
+			if ul+extra < 0 {
+				continue
+			}
 			b2, _ := buildMsgAny(m)
 			b2.Compress = compress
 			buf := make([]byte, ul+extra)
@@ -119,6 +122,13 @@ func c08CheckMsg(w *core.W, m *model.Msg, kind string, exact bool) {
 				continue
 			}
 			w.Count("packbuffer_calls", 1)
+			if extra <= 0 {
+				// a buffer that is not larger than the uncompressed length may be replaced, never refused
+				if string(out) != string(packed) {
+					w.Violation("C08/packbuffer-differs/"+kind+"/"+ck, fmt.Sprintf("PackBuffer with a %d-octet buffer (uncompressed Len %d) differs from Pack output", len(buf), ul), wit)
+				}
+				continue
+			}
 			if len(out) == 0 || &out[0] != &buf[0] {
 				w.Violation("C08/packbuffer-not-in-place/"+kind+"/"+ck, fmt.Sprintf("PackBuffer was given %d octets (> uncompressed Len %d) but returned a different slice", len(buf), ul), wit)
 			} else if string(out) != string(packed) {
@@ -170,6 +180,30 @@ func c08General(w *core.W, j int) {
 			m.Ar = append(m.Ar, opt)
 		}
 		c08CheckMsg(w, m, "general", false)
+	}
+	// messages whose last record ends in a field of zero octets (nothing left to write at the very end)
+	for _, t := range []uint16{257, 256, 16, 99, 10, 261} {
+		l := model.Layouts[t]
+		if l == nil {
+			continue
+		}
+		m := genPoolMsg(g, g.Len(0, 4))
+		r := g.Rec(l)
+		for i, fd := range l.Fields {
+			if i != len(l.Fields)-1 {
+				continue
+			}
+			switch fd.Kind {
+			case model.KOctet, model.KHex, model.KB64:
+				r.Vals[i] = []byte{}
+			case model.KStrs:
+				r.Vals[i] = [][]byte{}
+			}
+		}
+		r.Fixup()
+		m.Ar = append(m.Ar, r)
+		w.Count("trailing_empty_field_messages", 1)
+		c08CheckMsg(w, m, "trailing-empty", false)
 	}
 }
 
@@ -276,7 +310,7 @@ func init() {
 	core.Register(&core.Monitor{
 		ID: "C08", Level: "exploration", Plan: plan, Run: run,
 		Rule: "messages (pool names with shared suffixes/escapes; every name-bearing type straddling offset 16384 at each of 80 alignments; all registry types incl. bitmaps, OPT options, SVCB, APL; 300..1100-record messages beyond 16384 octets) x Compress in {false,true}; " +
-			"checks Len()>=len(Pack()), Len(rr)>=len(PackRR), equality for escape-free messages of the 16 common types, no ErrBuf/overflow from Pack/PackBuffer, PackBuffer in place when buffer > uncompressed Len; " +
+			"checks Len()>=len(Pack()), Len(rr)>=len(PackRR), equality for escape-free messages of the 16 common types, no ErrBuf/overflow from Pack/PackBuffer, PackBuffer with buffers of 0, Len-1, Len, Len+1, Len+2, Len+700 octets never refused and in place when buffer > uncompressed Len; messages ending in a zero-octet field (CAA value, URI target, TXT/SPF without strings, NULL); " +
 			"non-trivial = distinct packed message",
 		MinObserved: []string{"messages", "exactness_checked", "records", "packbuffer_calls", "messages_over_16384", "boundary_alignments"},
 	})
